@@ -461,7 +461,10 @@ def judge_custom_zone(case, provider):
         try:
             cp = mk()
         except Exception as e:  # noqa: BLE001
-            fails.append(Failure(f"C20.copies@custom-zone/{provider}", f"copy-raises@custom-zone/{label}/{provider}/" + exc_signature(e), repr(e)[:200]))
+            # RC-S/pytz is exactly this: deepcopy / pickle of a pytz zone built from a VTIMEZONE raises UnknownTimeZoneError.  Every
+            # other failure of a copy under pytz (other exception, unequal or differently serialised copy) keeps the plain clause
+            known = "@deepcopy-or-pickle-raises-UnknownTimeZoneError" if provider == "pytz" and label in ("deepcopy", "pickle") and type(e).__name__ == "UnknownTimeZoneError" else ""
+            fails.append(Failure(f"C20.copies@custom-zone/{provider}{known}", f"copy-raises@custom-zone/{label}/{provider}/" + exc_signature(e), repr(e)[:200]))
             continue
         r1, r2 = eq(a, cp), eq(cp, a)
         if r1 is not True or r2 is not True:
